@@ -21,6 +21,14 @@ CHECKS = {
          "Sound static analysis of a structural necessary condition: every accepting path of the type-1/type-5 Verify passes bytes.Equal(FullEvaluate(own key, suite, type||nonce||context||keyid from the token's own fields), token.Authenticator)=true on whole values. Quantifies over paths (all tokens). Does not prove the PRF separates inputs.",
          "Trusts go/ssa dominators, this checker's term evaluator, circl oprf FullEvaluate, bytes.Equal.",
          "DESIGN.md §4 C10"),
+ "C09": ("who-may-write queries + guard-shape (dominance/post-dominance) + rejection enumeration on SSA",
+         "Sound static analysis of the premises of an inductive invariant: the per-client maps are written only in FinalizeIndex, clients are registered only behind VerifyRequest's checks, nothing deletes/replaces bindings; the only map-dependent rejection is ok && stored != presented over the same key/value as the single update, which every accepted call performs after the lookup; every error return is a decode failure, unknown client or that guard and no binding update precedes it. The induction over histories is a paper argument (DESIGN.md), not machine-checked.",
+         "Trusts go/ssa dominators, this checker's term/fact extraction; the user-supplied cache returns what was Put; calls are sequential.",
+         "DESIGN.md §4 C09"),
+ "C13": ("guard-dominance + decoder read-sequence + value-flow of the entropy reader on SSA; AST agreement with GOROOT crypto/ecdsa (legacy math/big path)",
+         "Sound static analysis of structural necessary conditions: range checks dominate the verification core; strict DER parse dominates Verify; entropy fail-closed shape (ReadFull success dominates success, nil results on failure, rand flows nowhere else); hedged-nonce construction; signature encoding; hashToInt identical to the standard library's and the reference verify/sign core statements embed in order in the fork. Does not decide verdict equality with crypto/ecdsa on all inputs (two different arithmetic implementations).",
+         "Trusts go/ssa, this checker's extractors and AST matcher, GOROOT's crypto/ecdsa source as reference, io.ReadFull/math/big/cryptobyte as documented.",
+         "DESIGN.md §4 C13"),
 }
 PENDING_REASON = "check under construction in this round (see DESIGN.md §4 for the planned static rule); not claimed until the rule runs clean on the tree and fires on its seeded breakage"
 NOT_APPLICABLE = {}
